@@ -94,13 +94,15 @@ def decouple(rng, T, n, k, both):
     rows = set(rng.sample(range(n), min(k, n)))
     return [(i, j, v) for (i, j, v) in T if i == j or (i not in rows and not (both and j in rows))], rows
 
-def gen_matrix(rng, kind, n):
+def gen_matrix(rng, kind, n, tiny=False):
     info = kind
     if kind == "lap":
         T = lap_graph(rng, n, rng.choice([Fraction(1, 4), Fraction(1), Fraction(1, 16), 0]))
     elif kind == "grid":
         nx = rng.randint(3, max(3, int(n ** 0.5) + 2)); ny = max(1, n // nx); n = nx * ny
-        T = grid(rng, nx, ny, rng.choice([Fraction(1), Fraction(1, 4), Fraction(1, 16), Fraction(1, 2 ** 24), Fraction(1, 2 ** 27)]), rng.random() < 0.3)
+        eps = rng.choice([Fraction(1), Fraction(1, 4), Fraction(1, 16), Fraction(1, 2 ** 24), Fraction(1, 2 ** 27)])
+        if tiny: eps = rng.choice([Fraction(1, 2 ** 24), Fraction(1, 2 ** 27)])
+        T = grid(rng, nx, ny, eps, rng.random() < 0.3 and not tiny)
     elif kind == "convdiff":
         if rng.random() < 0.4: nx, ny = n, 1
         else:
@@ -182,7 +184,9 @@ def gen_cases(ctx, P, count, with_seq):
         tiny = rng.random() < 0.12
         if tiny: n = rng.randint(1, 12)
         if tiny and kind in ("grid", "convdiff", "decoupled"): kind = "lap"
-        T, n, info = gen_matrix(rng, kind, n)
+        tinyw = with_seq and k in (5, 6, 7, 8)       # every run: sequential and distributed hierarchies on couplings ~1e-7..1e-8 of the others
+        if tinyw: kind = "grid"; solver = ("rs", "sa", "prs", "psa")[k - 5]; tiny = False; n = rng.randint(30, 80)
+        T, n, info = gen_matrix(rng, kind, n, tiny=tinyw)
         rb_part = None
         if solver in ("prs", "psa") and (rng.random() < 0.07 or force == "rb"):
             T, n, rb_part = redblack(rng, rng.choice([P, P + 1, 8, 12, rng.randint(4, 40)]), P); info = "redblack"; tiny = False
